@@ -273,6 +273,9 @@ def handleDist : List Sx → Option String
       | none => []
     let v := verifyViolated P pin
     some (if v.isEmpty then "accepts" else "raises " ++ " ".intercalate (v.map VDiag.name))
+  | [.atom "checknames", base, prog] => do
+    let p ← parseProgram prog
+    some (if checkNames (← base.asNat?) p then "true" else "false")
   | [.atom "checkgood", prog] => do
     -- the decidable hypothesis of partition_wf_partial, with the failing part
     let p ← parseProgram prog
